@@ -242,8 +242,10 @@ def typeTable : List (Str × Nat) :=
     ([84, 76, 83, 65], 52),
     ([83, 77, 73, 77, 69, 65], 53),
     ([68, 83], 43),
-    ([83, 83, 72, 70, 80], 44) ]
-  -- A, NS, CNAME, SOA, PTR, MX, TXT, AAAA, SRV, ANAME, HINFO, CAA, TLSA, SMIMEA, DS, SSHFP
+    ([83, 83, 72, 70, 80], 44),
+    ([67, 69, 82, 84], 37),
+    ([79, 80, 69, 78, 80, 71, 80, 75, 69, 89], 61) ]
+  -- A, NS, CNAME, SOA, PTR, MX, TXT, AAAA, SRV, ANAME, HINFO, CAA, TLSA, SMIMEA, DS, SSHFP, CERT, OPENPGPKEY
 
 def typeCode (s : Str) : Option Nat := typeTable.lookup s
 
